@@ -4,7 +4,7 @@
 # /tmp/mx (so that /repo and /verif stay free), removed at the end.  Output: .build/seed_matrix.log
 N=${1:-4}
 rm -rf /tmp/mx; mkdir -p /tmp/mx
-seeds=($(ls /verif/seeded))
+seeds=($(ls /verif/seeded | grep -E "${MX_FILTER:-.}"))
 for w in $(seq 0 $((N-1))); do
   (
     root=/tmp/mx/w$w; mkdir -p $root
@@ -29,6 +29,6 @@ for w in $(seq 0 $((N-1))); do
   ) > /tmp/mx/w$w.log 2>&1 &
 done
 wait
-cat /tmp/mx/w*.log | sort > /verif/.build/seed_matrix.log
+cat /tmp/mx/w*.log | sort > /verif/.build/${MX_OUT:-seed_matrix.log}
 rm -rf /tmp/mx
-grep -c detected /verif/.build/seed_matrix.log; grep -v detected /verif/.build/seed_matrix.log
+grep -c detected /verif/.build/${MX_OUT:-seed_matrix.log}; grep -v detected /verif/.build/${MX_OUT:-seed_matrix.log}
